@@ -7,20 +7,31 @@ import GdcVerif.Lemmas.T1Lock
 namespace T1
 open Gen
 
+/-- the coder relation does not look at the context states beyond their equality -/
+structure CoderCtx (F : Mqc.Enc → Prop) (R : Mqc.Enc → Mqc.Dec → Prop) : Prop where
+  fctx : ∀ (e : Mqc.Enc) (c : Array Nat), F { e with ctx := c } → F e
+  rsize : ∀ (e : Mqc.Enc) (d : Mqc.Dec), R e d → d.ctx.size = e.ctx.size
+  rctx : ∀ (e : Mqc.Enc) (d : Mqc.Dec) (c : Array Nat), R e d → R { e with ctx := c } { d with ctx := c }
+
+theorem coderCtx_mq (B : Nat → Nat) (last len : Nat) : CoderCtx (Mqc.FE B last) (Mqc.Rel B last len) :=
+  ⟨fun _ _ hF => hF, fun _ _ hr => by rw [hr.ctx],
+   fun _ _ _ hr => ⟨hr.a, rfl, hr.size, hr.data, hr.bple, hr.eos, hr.ctlo, hr.cthi, hr.ahead, hr.wdeq, hr.eq⟩⟩
+
 section Lock
-variable (w h : Nat) (V : Array Int) (B : Nat → Nat) (last len : Nat) (hB : Mqc.BOk B last len)
-include hB
+variable (w h : Nat) (V : Array Int) (F : Mqc.Enc → Prop) (R : Mqc.Enc → Mqc.Dec → Prop)
+  (hC : Coder F R) (hX : CoderCtx F R)
+include hC
 
 /-- `SegmarkEnc()` against the four discarded `CTXUNI` decisions of the decoder -/
 theorem seg_lock (bp : Nat) (es : EncSt) (hs : EncOk w h V es) :
     ∃ m, Mqc.segmarkEnc es.mq = some m ∧ EncOk w h V { es with mq := m } ∧
-      (Mqc.FE B last m → Mqc.FE B last es.mq) ∧
-      (Mqc.FE B last m → ∀ (ds : DecSt) (lev : Nat → Nat), LS w h V B last len bp lev es ds →
-        ∃ d, segmarkDec ds.mq = some d ∧ LS w h V B last len bp lev { es with mq := m } { ds with mq := d }) := by
-  obtain ⟨m1, e1, h1, b1, l1⟩ := mqonly_lock w h V B last len hB bp es hs 1 18 (by decide) (by decide)
-  obtain ⟨m2, e2, h2, b2, l2⟩ := mqonly_lock w h V B last len hB bp { es with mq := m1 } h1 0 18 (by decide) (by decide)
-  obtain ⟨m3, e3, h3, b3, l3⟩ := mqonly_lock w h V B last len hB bp { es with mq := m2 } h2 1 18 (by decide) (by decide)
-  obtain ⟨m4, e4, h4, b4, l4⟩ := mqonly_lock w h V B last len hB bp { es with mq := m3 } h3 0 18 (by decide) (by decide)
+      (F m → F es.mq) ∧
+      (F m → ∀ (ds : DecSt) (lev : Nat → Nat), LS w h V R bp lev es ds →
+        ∃ d, segmarkDec ds.mq = some d ∧ LS w h V R bp lev { es with mq := m } { ds with mq := d }) := by
+  obtain ⟨m1, e1, h1, b1, l1⟩ := mqonly_lock w h V F R hC bp es hs 1 18 (by decide) (by decide)
+  obtain ⟨m2, e2, h2, b2, l2⟩ := mqonly_lock w h V F R hC bp { es with mq := m1 } h1 0 18 (by decide) (by decide)
+  obtain ⟨m3, e3, h3, b3, l3⟩ := mqonly_lock w h V F R hC bp { es with mq := m2 } h2 1 18 (by decide) (by decide)
+  obtain ⟨m4, e4, h4, b4, l4⟩ := mqonly_lock w h V F R hC bp { es with mq := m3 } h3 0 18 (by decide) (by decide)
   refine ⟨m4, ?_, h4, fun hF => b1 (b2 (b3 (b4 hF))), ?_⟩
   · unfold Mqc.segmarkEnc
     simp only [Option.bind_eq_bind]
@@ -48,13 +59,14 @@ theorem seg_lock (bp : Nat) (es : EncSt) (hs : EncOk w h V es) :
     rw [hd3']; simp only [Option.bind_some]
     rw [hd4']; simp only [Option.bind_some]
 
-omit hB in
+omit hC in
+include hX in
 /-- `ResetContexts()` + the three `SetContextState` calls on both sides -/
 theorem reset_lock (bp : Nat) (es : EncSt) (hs : EncOk w h V es) :
     ∃ m, initCtx (Mqc.resetContexts es.mq) = some m ∧ EncOk w h V { es with mq := m } ∧
-      (Mqc.FE B last m → Mqc.FE B last es.mq) ∧
-      (∀ (ds : DecSt) (lev : Nat → Nat), LS w h V B last len bp lev es ds →
-        ∃ d, resetCtxDec ds.mq = some d ∧ LS w h V B last len bp lev { es with mq := m } { ds with mq := d }) := by
+      (F m → F es.mq) ∧
+      (∀ (ds : DecSt) (lev : Nat → Nat), LS w h V R bp lev es ds →
+        ∃ d, resetCtxDec ds.mq = some d ∧ LS w h V R bp lev { es with mq := m } { ds with mq := d }) := by
   obtain ⟨m, em, hm⟩ := resetInit_ok w h V es hs
   have hsz : (Mqc.resetContexts es.mq).ctx.size = 19 := by
     unfold Mqc.resetContexts; simp only [Array.size_replicate]; exact hs.nctx
@@ -62,18 +74,20 @@ theorem reset_lock (bp : Nat) (es : EncSt) (hs : EncOk w h V es) :
   have hmm : m = { Mqc.resetContexts es.mq with ctx := ctx3 (Mqc.resetContexts es.mq).ctx } :=
     Option.some.inj (em.symm.trans hm')
   refine ⟨m, em, hm, ?_, ?_⟩
-  · intro hF; rw [hmm] at hF; exact hF
+  · intro hF; rw [hmm] at hF
+    exact hX.fctx es.mq _ hF
   · intro ds lev hL
     have hdsz : ({ ds.mq with ctx := Array.replicate ds.mq.ctx.size 0 } : Mqc.Dec).ctx.size = 19 := by
       show (Array.replicate ds.mq.ctx.size 0).size = 19
-      rw [Array.size_replicate, hL.rel.ctx]; exact hs.nctx
+      rw [Array.size_replicate, hX.rsize _ _ hL.rel]; exact hs.nctx
     refine ⟨{ ds.mq with ctx := ctx3 (Array.replicate ds.mq.ctx.size 0) },
       by unfold resetCtxDec; rw [initCtxDec_eq _ hdsz], hL.fl, hL.dsz, ?_, hL.smp⟩
     rw [hmm]
-    have hr := hL.rel
-    exact ⟨hr.a, by
-        show ctx3 (Array.replicate ds.mq.ctx.size 0) = ctx3 (Array.replicate es.mq.ctx.size 0)
-        rw [hr.ctx], hr.size, hr.data, hr.bple, hr.eos, hr.ctlo, hr.cthi, hr.ahead, hr.wdeq, hr.eq⟩
+    have hr := hX.rctx _ _ (ctx3 (Array.replicate es.mq.ctx.size 0)) hL.rel
+    rw [← hX.rsize _ _ hL.rel] at hr
+    rw [hX.rsize _ _ hL.rel]
+    rw [hX.rsize _ _ hL.rel] at hr
+    exact hr
 end Lock
 
 /-- `clearVisit` at the start of a bit-plane -/
@@ -94,43 +108,43 @@ def passD (w h orient : Nat) (bp pt : Nat) (st : DecSt) : Option DecSt :=
   | _ => decCleanup w h orient bp st
 
 /-- what a pass of type `pt` establishes -/
-def Post (w h : Nat) (V : Array Int) (B : Nat → Nat) (last len : Nat) (bp pt : Nat) (es : EncSt) (ds : DecSt) : Prop :=
-  ∃ lev, LS w h V B last len bp lev es ds ∧
+def Post (w h : Nat) (V : Array Int) (R : Mqc.Enc → Mqc.Dec → Prop) (bp pt : Nat) (es : EncSt) (ds : DecSt) : Prop :=
+  ∃ lev, LS w h V R bp lev es ds ∧
     (pt = 0 → VisLev w h bp lev es.flags ∧ SigOld w h bp lev es.flags) ∧
     (pt = 1 → VisLev w h bp lev es.flags ∧ SigDone w h bp lev es.flags) ∧
     (pt = 2 → ∀ j, InB w h j → lev j = bp)
 
 section Lock
-variable (w h : Nat) (V : Array Int) (B : Nat → Nat) (last len : Nat)
-  (hB : Mqc.BOk B last len) (hV : ∀ j, (gi V j).natAbs < 2147483648)
-include hB hV
+variable (w h : Nat) (V : Array Int) (F : Mqc.Enc → Prop) (R : Mqc.Enc → Mqc.Dec → Prop)
+  (hC : Coder F R) (hX : CoderCtx F R) (hV : ∀ j, (gi V j).natAbs < 2147483648)
+include hC hX hV
 
 /-- one coding pass (with the `clearVisit` in front of it) on both sides -/
 theorem step_lock (orient bp pi pt : Nat) (hpt : pt ≤ 2) (es : EncSt) (hs : EncOk w h V es) :
     ∃ es2, passE w h orient V bp pt (cvE pi pt es) = some es2 ∧ EncOk w h V es2 ∧
-      (Mqc.FE B last es2.mq → Mqc.FE B last es.mq) ∧
-      (Mqc.FE B last es2.mq → ∀ (ds : DecSt), PInv w h V B last len bp pi pt es ds →
-        ∃ ds2, passD w h orient bp pt (cvD pi pt ds) = some ds2 ∧ Post w h V B last len bp pt es2 ds2) := by
+      (F es2.mq → F es.mq) ∧
+      (F es2.mq → ∀ (ds : DecSt), PInv w h V R bp pi pt es ds →
+        ∃ ds2, passD w h orient bp pt (cvD pi pt ds) = some ds2 ∧ Post w h V R bp pt es2 ds2) := by
   have hvis0 : ∀ (lev : Nat → Nat) (fl : Array Nat), VisLev w h bp lev (clearVisit fl) := by
     intro lev fl j _ hv; rw [(clearVisit_eff fl).2] at hv; exact absurd hv (by simp)
   have hs1 : EncOk w h V { es with flags := clearVisit es.flags } :=
     ⟨by show (clearVisit es.flags).size = _; unfold clearVisit; rw [Array.size_map]; exact hs.fsz, hs.dsz, hs.reg, hs.norm, hs.nctx⟩
   rcases (show pt = 0 ∨ pt = 1 ∨ pt = 2 by omega) with rfl | rfl | rfl
-  · obtain ⟨es2, he2, hok2, hback2, hlock2⟩ := spp_lock w h V B last len hB hV orient bp _ hs1
+  · obtain ⟨es2, he2, hok2, hback2, hlock2⟩ := spp_lock w h V F R hC hV orient bp _ hs1
     refine ⟨es2, by unfold passE cvE; simp only [true_or, if_true]; exact he2, hok2, hback2, ?_⟩
     intro hF ds ⟨lev, hL, h0, _, _⟩
     obtain ⟨ds2, hd2, lev2, hL2, hv2, hso2⟩ := hlock2 hF _ ⟨lev, hL.clearVisit, hvis0 lev _, by
       intro j hj _ _; exact h0 rfl j hj⟩
     exact ⟨ds2, by unfold passD cvD; simp only [true_or, if_true]; exact hd2, lev2, hL2, fun _ => ⟨hv2, hso2⟩,
       fun hh => absurd hh (by decide), fun hh => absurd hh (by decide)⟩
-  · obtain ⟨es2, he2, hok2, hback2, hlock2⟩ := mrp_lock w h V B last len hB hV bp es hs
+  · obtain ⟨es2, he2, hok2, hback2, hlock2⟩ := mrp_lock w h V F R hC hV bp es hs
     refine ⟨es2, by unfold passE cvE; rw [if_neg (by omega)]; exact he2, hok2, hback2, ?_⟩
     intro hF ds ⟨lev, hL, _, h1, _⟩
     obtain ⟨ds2, hd2, lev2, hL2, hv2, hsd2⟩ := hlock2 hF ds ⟨lev, hL, (h1 rfl).1, (h1 rfl).2⟩
     exact ⟨ds2, by unfold passD cvD; rw [if_neg (by omega)]; exact hd2, lev2, hL2, fun hh => absurd hh (by decide),
       fun _ => ⟨hv2, hsd2⟩, fun hh => absurd hh (by decide)⟩
   · by_cases hpi : pi = 0
-    · obtain ⟨es2, he2, hok2, hback2, hlock2⟩ := cleanup_lock w h V B last len hB hV orient bp _ hs1
+    · obtain ⟨es2, he2, hok2, hback2, hlock2⟩ := cleanup_lock w h V F R hC hV orient bp _ hs1
       refine ⟨es2, by unfold passE cvE; rw [if_pos (Or.inr ⟨rfl, hpi⟩)]; exact he2, hok2, hback2, ?_⟩
       intro hF ds ⟨lev, hL, _, _, h2⟩
       obtain ⟨ds2, hd2, lev2, hL2, hall2⟩ := hlock2 hF _ ⟨lev, hL.clearVisit, hvis0 lev _, by
@@ -140,7 +154,7 @@ theorem step_lock (orient bp pi pt : Nat) (hpt : pt ≤ 2) (es : EncSt) (hs : En
         exact absurd hsj (by simp)⟩
       exact ⟨ds2, by unfold passD cvD; rw [if_pos (Or.inr ⟨rfl, hpi⟩)]; exact hd2, lev2, hL2,
         fun hh => absurd hh (by decide), fun hh => absurd hh (by decide), fun _ => hall2⟩
-    · obtain ⟨es2, he2, hok2, hback2, hlock2⟩ := cleanup_lock w h V B last len hB hV orient bp es hs
+    · obtain ⟨es2, he2, hok2, hback2, hlock2⟩ := cleanup_lock w h V F R hC hV orient bp es hs
       refine ⟨es2, by unfold passE cvE; rw [if_neg (by omega)]; exact he2, hok2, hback2, ?_⟩
       intro hF ds ⟨lev, hL, _, _, h2⟩
       obtain ⟨ds2, hd2, lev2, hL2, hall2⟩ := hlock2 hF ds ⟨lev, hL, ((h2 rfl).2 hpi).1, ((h2 rfl).2 hpi).2⟩
@@ -170,18 +184,18 @@ def encPassesS (w h orient style : Nat) (V : Array Int) : Nat → EncSt → (bp 
           else encPassesS w h orient style V fuel st bp (pi + 1) (pt + 1)
 
 section Lock
-variable (w h : Nat) (V : Array Int) (B : Nat → Nat) (last len : Nat)
-  (hB : Mqc.BOk B last len) (hV : ∀ j, (gi V j).natAbs < 2147483648)
-include hB
+variable (w h : Nat) (V : Array Int) (F : Mqc.Enc → Prop) (R : Mqc.Enc → Mqc.Dec → Prop)
+  (hC : Coder F R) (hX : CoderCtx F R) (hV : ∀ j, (gi V j).natAbs < 2147483648)
+include hC hX
 
 theorem segE_lock (style bp pt pt' : Nat) (es : EncSt) (hs : EncOk w h V es) :
-    ∃ es', segE style pt es = some es' ∧ EncOk w h V es' ∧ (Mqc.FE B last es'.mq → Mqc.FE B last es.mq) ∧
-      (Mqc.FE B last es'.mq → ∀ (ds : DecSt), Post w h V B last len bp pt' es ds →
-        ∃ ds', segD style pt ds = some ds' ∧ ds'.data = ds.data ∧ Post w h V B last len bp pt' es' ds') := by
+    ∃ es', segE style pt es = some es' ∧ EncOk w h V es' ∧ (F es'.mq → F es.mq) ∧
+      (F es'.mq → ∀ (ds : DecSt), Post w h V R bp pt' es ds →
+        ∃ ds', segD style pt ds = some ds' ∧ ds'.data = ds.data ∧ Post w h V R bp pt' es' ds') := by
   unfold segE segD
   by_cases hc : pt = 2 ∧ stySegsym style = true
   · rw [if_pos hc]
-    obtain ⟨m, em, hm, hback, hlock⟩ := seg_lock w h V B last len hB bp es hs
+    obtain ⟨m, em, hm, hback, hlock⟩ := seg_lock w h V F R hC bp es hs
     rw [em]
     refine ⟨_, rfl, hm, hback, ?_⟩
     intro hF ds ⟨lev, hL, p0, p1, p2⟩
@@ -194,15 +208,15 @@ theorem segE_lock (style bp pt pt' : Nat) (es : EncSt) (hs : EncOk w h V es) :
     rw [if_neg hc]
     exact ⟨ds, rfl, rfl, hP⟩
 
-omit hB in
+omit hC in
 theorem resetE_lock (style bp pt' : Nat) (es : EncSt) (hs : EncOk w h V es) :
-    ∃ es', resetE style es = some es' ∧ EncOk w h V es' ∧ (Mqc.FE B last es'.mq → Mqc.FE B last es.mq) ∧
-      (∀ (ds : DecSt), Post w h V B last len bp pt' es ds →
-        ∃ ds', resetD style ds = some ds' ∧ ds'.data = ds.data ∧ Post w h V B last len bp pt' es' ds') := by
+    ∃ es', resetE style es = some es' ∧ EncOk w h V es' ∧ (F es'.mq → F es.mq) ∧
+      (∀ (ds : DecSt), Post w h V R bp pt' es ds →
+        ∃ ds', resetD style ds = some ds' ∧ ds'.data = ds.data ∧ Post w h V R bp pt' es' ds') := by
   unfold resetE resetD
   by_cases hc : styReset style = true
   · rw [if_pos hc]
-    obtain ⟨m, em, hm, hback, hlock⟩ := reset_lock w h V B last len bp es hs
+    obtain ⟨m, em, hm, hback, hlock⟩ := reset_lock w h V F R hX bp es hs
     rw [em]
     refine ⟨_, rfl, hm, hback, ?_⟩
     intro ds ⟨lev, hL, p0, p1, p2⟩
@@ -262,15 +276,15 @@ theorem decLoop_step (w h orient style np f : Nat) (ds : DecSt) (bp pi pt : Nat)
         | none => rfl
         | some st2 => rfl
 section Lock
-variable (w h : Nat) (V : Array Int) (B : Nat → Nat) (last len : Nat)
-  (hB : Mqc.BOk B last len) (hV : ∀ j, (gi V j).natAbs < 2147483648)
-include hB hV
+variable (w h : Nat) (V : Array Int) (F : Mqc.Enc → Prop) (R : Mqc.Enc → Mqc.Dec → Prop)
+  (hC : Coder F R) (hX : CoderCtx F R) (hV : ∀ j, (gi V j).natAbs < 2147483648)
+include hC hX hV
 
 theorem passesS_lock (orient style np : Nat) : ∀ (fuel : Nat) (es : EncSt) (bp pi pt : Nat), EncOk w h V es → pt ≤ 2 →
     3 * bp + 3 - pt ≤ fuel →
     ∃ esP, encPassesS w h orient style V fuel es bp pi pt = some esP ∧ EncOk w h V esP ∧
-      (Mqc.FE B last esP.mq → Mqc.FE B last es.mq) ∧
-      (Mqc.FE B last esP.mq → ∀ (ds : DecSt), PInv w h V B last len bp pi pt es ds → pi + (3 * bp + 3 - pt) ≤ np →
+      (F esP.mq → F es.mq) ∧
+      (F esP.mq → ∀ (ds : DecSt), PInv w h V R bp pi pt es ds → pi + (3 * bp + 3 - pt) ≤ np →
         ∃ ds', decLoop w h orient style np fuel ds (bp : Int) pi pt = some ds' ∧
           ds'.data.size = (w + 2) * (h + 2) ∧ ∀ j, InB w h j → gi ds'.data j = gi V j) := by
   intro fuel
@@ -278,8 +292,8 @@ theorem passesS_lock (orient style np : Nat) : ∀ (fuel : Nat) (es : EncSt) (bp
   | zero => intro es bp pi pt _ hpt hf; omega
   | succ f ih =>
     intro es bp pi pt hs hpt hf
-    obtain ⟨es2, he2, hok2, hback2, hlock2⟩ := step_lock w h V B last len hB hV orient bp pi pt hpt es hs
-    obtain ⟨es3, he3, hok3, hback3, hlock3⟩ := segE_lock w h V B last len hB style bp pt pt es2 hok2
+    obtain ⟨es2, he2, hok2, hback2, hlock2⟩ := step_lock w h V F R hC hX hV orient bp pi pt hpt es hs
+    obtain ⟨es3, he3, hok3, hback3, hlock3⟩ := segE_lock w h V F R hC hX style bp pt pt es2 hok2
     by_cases hfin : pt = 2 ∧ bp = 0
     · -- the last pass
       refine ⟨es3, ?_, hok3, fun hF => hback2 (hback3 hF), ?_⟩
@@ -290,7 +304,7 @@ theorem passesS_lock (orient style np : Nat) : ∀ (fuel : Nat) (es : EncSt) (bp
       · intro hF ds hP hnp
         obtain ⟨ds2, hd2, hP2⟩ := hlock2 (hback3 hF) ds hP
         obtain ⟨ds3, hd3, hdd3, lev, hL3, _, _, h2⟩ := hlock3 hF ds2 hP2
-        obtain ⟨_, _, _, _, hrl⟩ := resetE_lock w h V B last len style bp pt es3 hok3
+        obtain ⟨_, _, _, _, hrl⟩ := resetE_lock w h V F R hX style bp pt es3 hok3
         obtain ⟨ds4, hd4, hdd4, _⟩ := hrl ds3 ⟨lev, hL3, fun hh => absurd hh (by omega), fun hh => absurd hh (by omega), h2⟩
         rw [decLoop_step w h orient style np f ds bp pi pt hpt (by omega), hd2]
         simp only [Option.bind_some]
@@ -311,7 +325,7 @@ theorem passesS_lock (orient style np : Nat) : ∀ (fuel : Nat) (es : EncSt) (bp
         · rw [if_neg hr]; simp only [Option.bind_some]
           rw [if_pos hfin.1, decLoop_exit _ _ _ _ _ _ _ _ _ _ (by omega)]
           exact ⟨ds3, rfl, hdata ds3 rfl⟩
-    · obtain ⟨es4, he4, hok4, hback4, hlock4⟩ := resetE_lock w h V B last len style bp pt es3 hok3
+    · obtain ⟨es4, he4, hok4, hback4, hlock4⟩ := resetE_lock w h V F R hX style bp pt es3 hok3
       by_cases hp2 : pt = 2
       · -- cleanup of a plane above 0: next plane
         obtain ⟨esP, heP, hokP, hbackP, hlockP⟩ := ih es4 (bp - 1) (pi + 1) 0 hok4 (by omega) (by omega)
@@ -528,10 +542,10 @@ theorem t1_roundtrip_styles (w h orient style mb : Nat) (coeffs : List Int) (hle
       { flags := Array.replicate ((w + 2) * (h + 2)) 0,
         mq := { Mqc.Enc.new NUMCONTEXTS with ctx := ctx3 (Mqc.Enc.new NUMCONTEXTS).ctx } } :=
     ⟨by simp, hVsz, hr0, hn0, hsz0⟩
-  obtain ⟨esP, hP1, hokP, _, _⟩ := passesS_lock w h (padBlock w h coeffs) _ 1 1 bok_dummy hVb orient style (3 * mb + 1)
+  obtain ⟨esP, hP1, hokP, _, _⟩ := passesS_lock w h (padBlock w h coeffs) _ _ (coder_mq _ 1 1 bok_dummy) (coderCtx_mq _ 1 1) hVb orient style (3 * mb + 1)
     (3 * mb + 1 + 1) _ mb 0 2 hs0 (by omega) (by omega)
-  obtain ⟨ef, bytes, last, len, hfl, hB, hfe, hblen, hbytes, _⟩ := Mqc.flush_facts esP.mq hokP.reg hokP.norm
-  obtain ⟨esP', hP', _, hbackP, hlockP⟩ := passesS_lock w h (padBlock w h coeffs) _ last len hB hVb orient style (3 * mb + 1)
+  obtain ⟨ef, bytes, last, len, hfl, hB, hfe, hblen, hbytes, _, hl1⟩ := Mqc.flush_facts esP.mq hokP.reg hokP.norm
+  obtain ⟨esP', hP', _, hbackP, hlockP⟩ := passesS_lock w h (padBlock w h coeffs) _ _ (coder_mq _ last len hB) (coderCtx_mq _ last len) hVb orient style (3 * mb + 1)
     (3 * mb + 1 + 1) _ mb 0 2 hs0 (by omega) (by omega)
   have hpp : esP' = esP := Option.some.inj (hP'.symm.trans hP1)
   subst hpp
@@ -565,7 +579,7 @@ theorem t1_roundtrip_styles (w h orient style mb : Nat) (coeffs : List Int) (hle
     simp only [Option.bind_some, hflush.1, hstR, Option.map_some, if_true]
     rw [hbufR, hflush.2]
   · have hfe0 : Mqc.FE (Mqc.finalB ef.buf last) last (Mqc.Enc.new NUMCONTEXTS) := hbackP hfe
-    obtain ⟨d0, hd0, hrel0⟩ := Mqc.decNew_rel _ last len hB NUMCONTEXTS bytes hblen hbytes hfe0
+    obtain ⟨d0, hd0, hrel0⟩ := Mqc.decNew_rel _ last len hB NUMCONTEXTS bytes hblen hbytes hl1 hfe0
     have hd0sz : d0.ctx.size = 19 := by rw [hrel0.ctx]; exact s0
     have hid0 := initCtxDec_eq d0 hd0sz
     have hrel1 : Mqc.Rel (Mqc.finalB ef.buf last) last len
@@ -585,7 +599,7 @@ theorem t1_roundtrip_styles (w h orient style mb : Nat) (coeffs : List Int) (hle
         fun hh => absurd hh (by decide), fun hh => absurd hh (by decide),
         fun _ => ⟨fun _ => ⟨fun j _ => rfl, fun j _ => hrepf j⟩, fun hh => absurd rfl hh⟩⟩ (by omega)
     unfold decodeBlock
-    rw [if_neg (by have := hB.len1; omega), hd0]
+    rw [if_neg (by omega), hd0]
     simp only []
     rw [hid0]
     simp only []
